@@ -28,6 +28,8 @@ from pyvc import engine, solve  # noqa: E402
 from pyvc.values import Arr, Obj, SliceV, Unsupported  # noqa: E402
 
 VENV_PY = "/venv/bin/python"
+# where evidence/ and replays/ are written (default: /verif itself; the seeded sweep uses a scratch dir)
+OUT = os.environ.get("VERIF_OUT", ROOT)
 
 
 def load_plan():
@@ -376,7 +378,7 @@ def main():
             summ[n]["known"] = True
     n_obl = sum(1 for n, i in summ.items() if "#cover" not in n and not i.get("known"))
     n_dis = sum(1 for n, i in summ.items() if "#cover" not in n and i["status"] == "proved")
-    os.makedirs(os.path.join(ROOT, "replays", pid), exist_ok=True)
+    os.makedirs(os.path.join(OUT, "replays", pid), exist_ok=True)
     lines = []
     for nm, info in sorted(summ.items()):
         st = info["status"]
@@ -388,7 +390,7 @@ def main():
                 continue
             rep = replay_refuted(run, nm, info, None)
             safe = re.sub(r"[^A-Za-z0-9_.=-]+", "_", nm)[:150]
-            path = os.path.join(ROOT, "replays", pid, safe + ".json")
+            path = os.path.join(OUT, "replays", pid, safe + ".json")
             rep["replay_cmd"] = f"./check {pid} --replay {path}"
             json.dump(rep, open(path, "w"), indent=1, default=str)
             tail = "" if rep.get("confirmed_on_real_code") else " no-failing-input-found"
@@ -402,7 +404,7 @@ def main():
                 rep = replay_refuted(run, nm, info, None)
                 if rep.get("confirmed_on_real_code"):
                     safe = re.sub(r"[^A-Za-z0-9_.=-]+", "_", nm)[:150]
-                    path = os.path.join(ROOT, "replays", pid, safe + ".json")
+                    path = os.path.join(OUT, "replays", pid, safe + ".json")
                     rep["replay_cmd"] = f"./check {pid} --replay {path}"
                     rep["note2"] = "solver status unknown; candidate model of the instantiated query confirmed by replay"
                     json.dump(rep, open(path, "w"), indent=1, default=str)
@@ -478,8 +480,8 @@ def main():
         cov["rule"] = "bounded stand-in (never counted as proved): " + str(bounded.get("rule"))
     ev = {"property_id": pid, "tier": tier, "seed": seed, "level": ev_level, "coverage": cov,
           "assumptions": assumptions, "wall_s": round(time.time() - run.t0, 2), "violations": len(run.violations)}
-    os.makedirs(os.path.join(ROOT, "evidence"), exist_ok=True)
-    json.dump(ev, open(os.path.join(ROOT, "evidence", f"{pid}.json"), "w"), indent=1, default=str)
+    os.makedirs(os.path.join(OUT, "evidence"), exist_ok=True)
+    json.dump(ev, open(os.path.join(OUT, "evidence", f"{pid}.json"), "w"), indent=1, default=str)
     # ---- verdict
     print(f"[{pid}] tier={tier} functions={len(run.functions)} obligations={n_obl} discharged={n_dis} "
           f"undecided={len(run.undecided)} errors={len(run.errors)} violations={len(run.violations)} "
